@@ -81,7 +81,7 @@ def run_c05(ctx):
     fams = props_prog.fam(ctx, ["gen_operators", "gen_positions", "gen_pipelines", "gen_statements", "gen_unary", "gen_exprtriples"],
                           dict(props_prog.corrupt_fams(thorough), **{"gen_plant": {}}))
     extra = props_prog.generate(ctx, fams, deep=(250, 60, 40) if thorough else (60, 40, 20))
-    runs = [("plan_seq", "plan_seq", {"MaxOps": 3 if thorough else 2, "DbRows": 1}),
+    runs = [("plan_seq", "plan_seq", {"MaxOps": 3, "DbRows": 1, "CoreFrom": 3 if thorough else 1}),
             ("plan_join", "plan_join", {"MaxOps": 4, "DbRows": 1})]
     tr = plan_like(ctx, "C05", runs, extra_cases=extra, soups=300000 if thorough else 30000)
     return {"exhaustive": True, "assumptions": ASSUME[:1] + ASSUME[-1:] + [
